@@ -49,8 +49,8 @@ RecvEnd ==
                     ELSE bad
              [] Tr.outcome = "closed" ->
                     IF term \notin {"eof", "fatal"} THEN Flag("C17.SpuriousClosed")
-                    ELSE IF term = "eof" /\ Tr.partial # got THEN Flag("C17.PartialData")
-                    ELSE IF Tr.partial # <<-1>> /\ Tr.partial # got THEN Flag("C17.PartialData")
+                    \* whether the peer closed early or a fatal error occurred: the error carries what was received so far
+                    ELSE IF Tr.partial # got THEN Flag("C17.PartialData")
                     ELSE bad
              [] Tr.outcome = "timeout" ->
                     IF term # "timeout" THEN Flag("C17.SpuriousTimeout") ELSE bad
